@@ -175,8 +175,12 @@ class ValueAxis(Saveable):
 
         """
 
-        # nearest smaller neighbor index
-        nsni = int(numpy.floor((val-self.start)/self.step))
+        # nearest smaller neighbor index; a value which coincides with
+        # a point of the axis up to rounding belongs to that point
+        xval = (val-self.start)/self.step
+        nsni = int(numpy.floor(xval))
+        if xval - nsni > 1.0 - 1.0e-9:
+            nsni += 1
 
         # if n0 is within bounds calculate distance
         # from the lower neighbor
